@@ -1069,6 +1069,16 @@ static void do_op(char **t, int ntok)
 		NEED(3); OPT(t[1]); s1 = dec(t[2], NULL);
 		v = E(cfg_setopt(sec, opt, s1));
 		fprintf(out, "r setopt %d\n", v ? 1 : 0);
+	} else if (!strcmp(op, "setopt_from")) {
+		/* <optref> <index>: set-from-text with the string the option itself returns for that element (an argument that aliases
+		 * what the call may release) */
+		cfg_value_t *v;
+		const char *own;
+		NEED(3); OPT(t[1]);
+		own = opt->type == CFGT_STR ? cfg_opt_getnstr(opt, (unsigned)strtoul(t[2], NULL, 0)) : NULL;
+		if (!own) { fprintf(out, "r setopt_from none\n"); return; }
+		v = E(cfg_setopt(sec, opt, own));
+		fprintf(out, "r setopt_from %d\n", v ? 1 : 0);
 	} else if (!strcmp(op, "setcomment")) {
 		NEED(4); SEC(t[1]); s1 = dec(t[2], NULL); s2 = dec(t[3], NULL);
 		rc = E(cfg_setcomment(sec, s1, s2));
